@@ -24,9 +24,10 @@ RULE = ("cells = sub-check x event size {1,2,3} x covariance representation {den
         "representations; rsample on every basis vector; arithmetic / expand / every unsqueeze dim / add_jitter; __getitem__ over the full product "
         "of per-dimension index alphabets; distinct/non-trivial = distinct (configuration, selected positions) or distinct cell that evaluated")
 ASSUMPTIONS = ["sample-moment convergence is replaced by x = mean + L e (owned base samples) with L L^T = covariance",
+               "rsample(base_samples=) is documented for an N x N root: skipped for the N x (N+2) RootLinearOperator representation",
                "index tensors in one dimension at a time; expressions torch rejects / selecting nothing / leaving no dimension are outside the domain"]
 
-KINDS = ["dense", "lo", "diag", "chol", "root", "sum", "bcast"]
+KINDS = ["dense", "lo", "diag", "chol", "root", "rootwide", "sum", "bcast"]
 SHAPES = [(), (2,), (1,), (2, 1), (3, 2)]
 
 
@@ -43,6 +44,9 @@ def mk(g, bs, N, kind):
         return CholLinearOperator(TriangularLinearOperator(torch.linalg.cholesky(C))), C
     if kind == "root":
         A = util.randn(g, *bs, N, N) + 2 * torch.eye(N, dtype=F64)
+        return RootLinearOperator(A), A @ A.mT
+    if kind == "rootwide":  # a root with more columns than rows (N x (N + 2)): the covariance of a low-dimensional projection
+        A = util.randn(g, *bs, N, N + 2)
         return RootLinearOperator(A), A @ A.mT
     if kind == "sum":
         dg = util.rand(g, *bs, N) + 0.5
@@ -156,10 +160,20 @@ def run_cell(cell, seed):
 def run_ops(cell, g, fails):
     bs, N, kind = tuple(cell["bs"]), cell["N"], cell["kind"]
     m = util.randn(g, *bs, N)
+    gstate = g.get_state()
     c, C = mk(g, bs, N, kind)
     d = MVN(m, c)
     n = 0
+
+    def fresh():
+        """the same distribution on a newly built covariance operator (no cached factor anywhere)"""
+        g2 = torch.Generator()
+        g2.set_state(gstate)
+        return MVN(m, mk(g2, bs, N, kind)[0])
+
     with fails.guard("rsample"):
+        if kind == "rootwide":
+            raise util.Skip()  # documented for an N x N root and N base samples only
         E = torch.eye(N, dtype=F64).view(N, *([1] * len(bs)), N).expand(N, *bs, N)
         S = d.rsample(base_samples=E) - m
         L = S.movedim(0, -1)
@@ -197,6 +211,33 @@ def run_ops(cell, g, fails):
         fails.check_close("confidence_region", lo, m - 2 * var.sqrt(), 1e-10, 1e-12)
         fails.check_close("confidence_region", hi, m + 2 * var.sqrt(), 1e-10, 1e-12)
         n += 3
+    n += derived_ops(d, m, C, bs, N, g, fails, "as-is")
+    # short histories: the same operations on a distribution that has first served another request (which may cache a factor)
+    for warm, fn in WARMUPS:
+        nb = len(fails)
+        dw = fresh()
+        try:
+            fn(dw, m)
+        except Exception:
+            continue  # the warm-up request itself is judged elsewhere (log_prob / getitem cells)
+        n += 1 + derived_ops(dw, m, C, bs, N, g, fails, warm)
+        for f in fails[nb:]:
+            f["detail"] = f"[after {warm}] " + f.get("detail", "")
+    return n
+
+
+def _lp_chol(d, m):
+    with gpytorch.settings.fast_computations(log_prob=False):
+        d.log_prob(m + 0.1)
+
+
+WARMUPS = [("scale_tril", lambda d, m: d.scale_tril), ("log_prob(cholesky path)", _lp_chol), ("log_prob(fast path)", lambda d, m: d.log_prob(m + 0.1)),
+           ("entropy", lambda d, m: d.entropy()), ("precision_matrix", lambda d, m: d.precision_matrix), ("variance", lambda d, m: d.variance),
+           ("rsample", lambda d, m: d.rsample())]
+
+
+def derived_ops(d, m, C, bs, N, g, fails, warm):
+    n = 0
     arith = [("+1.5", lambda x: x + 1.5, lambda m: m + 1.5, lambda C: C), ("*3", lambda x: x * 3, lambda m: m * 3, lambda C: C * 9),
              ("*-2", lambda x: x * -2, lambda m: m * -2, lambda C: C * 4), ("/2", lambda x: x / 2, lambda m: m / 2, lambda C: C / 4),
              ("*1", lambda x: x * 1, lambda m: m, lambda C: C), ("d+d2", None, None, None), ("1.5+d", lambda x: 1.5 + x, lambda m: m + 1.5, lambda C: C)]
